@@ -42,6 +42,27 @@ def _isnum(x):
     return isinstance(x, (int, float, Fraction)) or (core._np is not None and isinstance(x, core._NPNUM))
 
 
+ROUND_VALUES = [Fraction(k, 2) for k in range(-6, 7)]
+
+
+def generic_model(c, *assumptions):
+    """a model of the path (plus assumptions) in which the real-valued inputs avoid 'round' values where possible:
+    witnesses replayed on the real code then also exercise truncation / rounding / tie-sensitive code."""
+    extra = []
+    for name, (zv, kind) in c.inputs.items():
+        if zv is not None and kind == 'real':
+            extra += [zv != z3.RealVal(str(v)) for v in ROUND_VALUES]
+    try:
+        c.solver.push()
+        for e in list(assumptions) + extra:
+            c.solver.add(e)
+        r = c._check()
+        m = c.solver.model() if r == z3.sat else None
+    finally:
+        c.solver.pop()
+    return m
+
+
 class Sx:
     """what a harness sees"""
 
@@ -188,6 +209,11 @@ class Sx:
                     r3 = c._check(robust.z)
                     if r3 == z3.sat:
                         m = c.solver.model()
+                        neg = robust.z
+                if self.sym:
+                    gm = generic_model(c, neg)
+                    if gm is not None:
+                        m = gm
                 c.violations.append((label, self._extract_model(m) if self.sym else dict(c.given)))
                 c.model = None
                 # continue the path under the assumption that the obligation held
@@ -269,7 +295,7 @@ class Sx:
         except Exception as e:  # noqa: BLE001  (BaseException control flow passes through)
             c = self.c
             c.obligations += 1
-            m = c.get_model() if self.sym else None
+            m = (generic_model(c) or c.get_model()) if self.sym else None
             lab = f"{label}:raises:{type(e).__name__}"
             c.notes.append(f"{lab}: {str(e)[:200]}")
             c.violations.append((lab, self._extract_model(m) if self.sym else dict(c.given)))
@@ -442,7 +468,7 @@ def explore(harness, *, tier='quick', timeout_ms=20000, max_paths=20000, budget_
                 twins_done += 1
                 try:
                     core.CUR = ctx
-                    m = ctx.get_model()
+                    m = generic_model(ctx) or ctx.get_model()
                     sxm = Sx(ctx)._extract_model(m)
                     exp = eval_observed(ctx, m)
                     rctx, rstatus, rerr = run_once(harness, [], 'real', sxm, timeout_ms, tier)
@@ -451,8 +477,16 @@ def explore(harness, *, tier='quick', timeout_ms=20000, max_paths=20000, budget_
                     flat = {}
                     _flatten(rctx.observed, flat)
                     mism = []
-                    if rstatus != 'ok' or rctx.violations:
-                        mism.append(f"real run status={rstatus} violations={[l for l, _ in rctx.violations]} err={rerr}")
+                    if rctx.violations:
+                        # the real code violates the property on this solver-chosen witness input: a replayed violation
+                        for rl, _ in rctx.violations[:1]:
+                            if rl not in seen_labels:
+                                seen_labels.add(rl)
+                                confirmed_labels.add(rl)
+                                st['violations'].append(dict(label=rl, model={k: str(x) for k, x in sxm.items()},
+                                                             replay=dict(status=rstatus, labels=[l for l, _ in rctx.violations], found_by='witness replay')))
+                    elif rstatus != 'ok':
+                        mism.append(f"real run status={rstatus} err={rerr}")
                     else:
                         for k, ev in exp.items():
                             gv = flat.get(k, '<missing>')
